@@ -10,7 +10,7 @@ From Arsenal Require Import Util Budget BudgetProofs VamDev VamBlockList VamDefr
 From Arsenal Require Import VamInvStep VamInvStep2 VamInvThm VamProps VamAcct VamAcctStep VamAcctStep2 VamAcctThm VamMap VamMapStep VamMapStep2 VamMapThm.
 From Arsenal Require Import VamBal VamBalStep VamBalStep2 VamBalThm VamNpStep VamNpThm.
 From Arsenal Require Import VamDefragInv VamDefragStep VamDefragPass VamDefragThm VamDefragAcct VamDefragMap VamDefragBal.
-From Arsenal Require Pass PassProofs Defrag DefragProofs DefragGranProofs SyncMem SyncMemProofs VamDefragBridge VamDefragSim VamFlush.
+From Arsenal Require Pass PassProofs Defrag DefragProofs DefragGranProofs Gran GranInv GranTlsf VamGran SyncMem SyncMemProofs VamDefragBridge VamDefragSim VamFlush.
 Import ListNotations.
 Open Scope Z_scope.
 
@@ -267,24 +267,24 @@ Qed.
 (* BlockListCollectMoves of one context *)
 Lemma collect_list_np v dc p :
   VamInv c v -> MM ms0 v [] -> Defrag.c_moves (dc_ctx dc) = [] -> PassProofs.pass_running p ->
-  (forall l, get_blist v (dc_lr dc) = Some l -> bl_gran l = 1) ->
+  VamGran.GV v ->
   projectable v (dc_lr dc) -> (Defrag.c_algo (dc_ctx dc) = 1 \/ Defrag.c_algo (dc_ctx dc) = 2) -> pa_ok v ->
   npu (snd (collect_list c v dc p)).
 Proof.
   intros HI HM Hidle Hrun HG1 Hproj Halgo Hpa. unfold collect_list.
   destruct (projectable_project v (dc_lr dc) Hproj) as (l & st & Hg & Ep). rewrite Ep, Hg.
-  pose proof (project_wf c v (dc_lr dc) l st HI Hg (HG1 l Hg) Ep) as HW.
+  pose proof (project_wf c v (dc_lr dc) l st HI HG1 Hg Ep) as HW.
   assert (Est : exists bl, project_blocks (bl_blocks l) = Some bl /\ st = Defrag.mkD bl (map (project_entry (dc_lr dc)) (v_tab v)) false).
   { unfold project in Ep. rewrite Hg in Ep. destruct (project_blocks (bl_blocks l)) as [bl|]; [|discriminate]. injection Ep as <-. eauto. }
   destruct Est as (bl & Epb & ->).
   set (st := Defrag.mkD bl (map (project_entry (dc_lr dc)) (v_tab v)) false) in *.
-  destruct (VamDefragBridge.collect_moves_f_inv_g1 vam (att_commit c (dc_lr dc)) st (dc_ctx dc) p v HW Hrun) as (new & HC & _).
-  destruct (VamDefragBridge.collect_moves_f_log_g1 vam (att_commit c (dc_lr dc)) st (dc_ctx dc) p v) as (Hlg & Hdst).
-  destruct (VamDefragBridge.collect_moves_f_strace_g1 vam (att_commit c (dc_lr dc)) st (dc_ctx dc) p v HW Hrun) as (HT & Hsl).
-  pose proof (VamDefragBridge.collect_f_never_panics_g1 vam (att_commit c (dc_lr dc)) st (dc_ctx dc) p v HW Hrun Halgo) as Hnp.
+  destruct (VamDefragBridge.collect_moves_f_inv_p (bl_gran l) vam (att_commit c (dc_lr dc)) st (dc_ctx dc) p v HW Hrun) as (new & HC & _).
+  destruct (VamDefragBridge.collect_moves_f_log_p vam (att_commit c (dc_lr dc)) st (dc_ctx dc) p v) as (Hlg & Hdst).
+  destruct (VamDefragBridge.collect_moves_f_strace_p (bl_gran l) vam (att_commit c (dc_lr dc)) st (dc_ctx dc) p v HW Hrun) as (HT & Hsl).
+  pose proof (VamDefragBridge.collect_f_never_panics_p (bl_gran l) vam (att_commit c (dc_lr dc)) st (dc_ctx dc) p v HW Hrun Halgo) as Hnp.
   destruct (Defrag.collect_moves_f vam (att_commit c (dc_lr dc)) st (dc_ctx dc) p v) as (((cs & env) & log) & wr).
   unfold Defrag.res_f, Defrag.log_f, Defrag.env_f in *. cbn [fst snd] in *.
-  pose proof (DefragProofs.ci_moves _ _ _ _ _ _ HC) as Hms. rewrite Hidle in Hms, Hlg. cbn [app] in Hms, Hlg.
+  pose proof (DefragGranProofs.ci_moves Gran.HVam (bl_gran l) (GranTlsf.GInv (bl_gran l)) GranInv.kind_ok _ _ _ _ _ _ HC) as Hms. rewrite Hidle in Hms, Hlg. cbn [app] in Hms, Hlg.
   assert (Hnew : new = Defrag.log_moves log) by congruence.
   set (bl' := Defrag.d_blocks (Defrag.cs_st cs)). set (l1 := set_blocks l (unproject_blocks (bl_blocks l) bl')). set (v1 := set_blist v (dc_lr dc) l1).
   assert (PR : npu (snd (replay_log c v1 (dc_lr dc) log))).
@@ -300,7 +300,7 @@ Proof.
       specialize (Hdst a Ha). cbn [Defrag.d_blocks] in Hdst. destruct (project_blocks_spec _ _ Epb) as (Hids & _). rewrite Hids in Hdst.
       destruct (in_ids_block _ _ Hdst) as (b & Hb & Hbid). exists b. rewrite <- Hbid.
       apply (VamFlush.get_block_of v (dc_lr dc) l b Hg (bw_nodup _ _ (vi_lists _ _ _ _ HI _ _ Hg)) Hb).
-    - rewrite <- Hnew. destruct (DefragProofs.ci_reg _ _ _ _ _ _ HC) as [_ Htm _].
+    - rewrite <- Hnew. destruct (DefragGranProofs.ci_reg Gran.HVam (bl_gran l) (GranTlsf.GInv (bl_gran l)) GranInv.kind_ok _ _ _ _ _ _ HC) as [_ Htm _].
       unfold tmp_of. rewrite <- (map_map Defrag.m_tmp Z.of_nat), Htm, seq_of_nat. apply map_ext. intros i.
       unfold v1. rewrite set_blist_tab. unfold st. cbn [Defrag.d_table]. rewrite map_length. unfold zlen. lia. }
   destruct wr as [| |why]; [| |exfalso; exact (Hnp why eq_refl)];
@@ -367,7 +367,7 @@ Proof using.
   destruct (project v (dc_lr dc)) as [st|] eqn:Ep; [|discriminate]. destruct (get_blist v (dc_lr dc)) as [l|] eqn:Hg; [|discriminate].
   assert (Ht : forallb (fun b => is_tlsf (bk_meta b)) (bl_blocks l) = true).
   { unfold project in Ep. rewrite Hg in Ep. destruct (project_blocks (bl_blocks l)) as [bl|] eqn:E; [|discriminate]. eapply project_blocks_some_tlsf; eauto. }
-  destruct (VamDefragBridge.collect_moves_f_log_g1 vam (att_commit c (dc_lr dc)) st (dc_ctx dc) p v) as (Hlg & _).
+  destruct (VamDefragBridge.collect_moves_f_log_p vam (att_commit c (dc_lr dc)) st (dc_ctx dc) p v) as (Hlg & _).
   destruct (Defrag.collect_moves_f vam (att_commit c (dc_lr dc)) st (dc_ctx dc) p v) as (((cs & env) & log) & wr).
   unfold Defrag.res_f, Defrag.log_f in Hlg. cbn [fst snd] in Hlg. rewrite Hidle in Hlg. cbn [app] in Hlg.
   set (l1 := set_blocks l (unproject_blocks (bl_blocks l) (Defrag.d_blocks (Defrag.cs_st cs)))) in *.
@@ -395,7 +395,7 @@ Definition dpass_inv (v : vam) (rn : dfrun) : Prop :=
 
 Lemma pass_loop_np fuel : forall v run p,
   VamInv c v -> MM ms0 v [] -> run_idle run -> 0 <= dr_max_bytes run -> 0 <= dr_max_allocs run -> PassProofs.pass_running p ->
-  lists_g1 v run -> dpass_inv v run ->
+  VamGran.GV v -> dpass_inv v run ->
   (1 <= fuel)%nat -> (0 <= dr_progress run -> (length (dr_ctxs run) - Z.to_nat (dr_progress run) < fuel)%nat) ->
   npu (snd (pass_loop c fuel v run p)).
 Proof.
@@ -403,12 +403,12 @@ Proof.
   destruct (nth_z (dr_ctxs run) (dr_progress run)) as [dc|] eqn:En; [|apply npu_ok].
   assert (Hdc : Defrag.c_moves (dc_ctx dc) = []) by (eapply Hidle; eauto).
   destruct HD as (HDl & Hpa). destruct (HDl _ _ En) as (Hproj & Halgo).
-  pose proof (collect_list_np v dc p HI HM Hdc Hrun (fun l Hl => HG _ _ _ En Hl) Hproj Halgo Hpa) as N.
-  pose proof (VamDefragPass.collect_list_inv c v dc p HI Hdc Hrun (fun l Hl => HG _ _ _ En Hl)) as PS.
+  pose proof (collect_list_np v dc p HI HM Hdc Hrun HG Hproj Halgo Hpa) as N.
+  pose proof (VamDefragPass.collect_list_inv_gv c v dc p HI HG Hdc Hrun) as PS.
   pose proof (VamDefragMap.collect_list_MM c Hc Hmax Hlarge ms0 v dc p HI HM) as PM.
   destruct (collect_list c v dc p) as (v1 & r) eqn:Ecl. cbn [snd] in N. destruct N as (N1 & N2).
   destruct r as [(dc' & p')|code| |]; [|apply npu_er|congruence|congruence].
-  destruct PS as (S1 & LS1 & GS1 & Elr & MS1 & Hrun').
+  destruct PS as ((S1 & LS1 & GS1 & Elr & MS1 & Hrun') & HG1).
   pose proof (nth_z_some_range _ _ _ En) as Hrg.
   destruct (Defrag.c_moves (dc_ctx dc')) as [|m0 ms1] eqn:Em; [|apply npu_ok].
   destruct (collect_list_idle v dc p v1 dc' p' Ecl Hdc Em) as (Htab & Hpr & Halg & _).
@@ -418,12 +418,6 @@ Proof.
     destruct (Z.eq_dec i (dr_progress run)) as [->|Hne].
     - rewrite nth_z_set_same in Hn1 by exact Hrg. injection Hn1 as <-. exact Em.
     - rewrite nth_z_set_other in Hn1 by congruence. eapply Hidle; eauto. }
-  assert (HG1 : lists_g1 v1 run1).
-  { intros i dc1 l1 Hn1 Hg1. unfold run1 in Hn1. cbn [dr_ctxs] in Hn1. unfold set_nth_ctx in Hn1.
-    destruct (Z.eq_dec i (dr_progress run)) as [->|Hne].
-    - rewrite nth_z_set_same in Hn1 by exact Hrg. injection Hn1 as <-. rewrite Elr in Hg1.
-      eapply (lists_frame_g1 v v1 (dr_ctxs run) LS1 HG); eauto.
-    - rewrite nth_z_set_other in Hn1 by congruence. eapply (lists_frame_g1 v v1 (dr_ctxs run) LS1 HG); eauto. }
   assert (HD1 : dpass_inv v1 run1).
   { split.
     - intros i dc1 Hn1. unfold run1 in Hn1. cbn [dr_ctxs] in Hn1. unfold set_nth_ctx in Hn1.
@@ -441,7 +435,7 @@ Proof.
 Qed.
 
 Lemma defrag_pass_np v run :
-  VamInv c v -> MM ms0 v [] -> run_ok v run -> run_idle run -> lists_g1 v run -> dpass_inv v run ->
+  VamInv c v -> MM ms0 v [] -> run_ok v run -> run_idle run -> VamGran.GV v -> dpass_inv v run ->
   npu (snd (defrag_pass c v run)).
 Proof.
   clear G. intros HI HM (Hb & Ha & _) Hidle HG HD. unfold defrag_pass.
@@ -479,10 +473,10 @@ Let Hmax := ca_max c Ha.
 Let Hlarge := ca_large c Ha.
 
 Lemma dexec_np ms0 G v run o :
-  VamBalStep.VamInvB c ms0 G v [] [] -> drun_ok v run -> dop_ok v run o -> tmps_unmapped G run -> dop_bal G run o -> dop_live v run o ->
+  VamBalStep.VamInvB c ms0 G v [] [] -> VamGran.GV v -> drun_ok v run -> dop_ok v run o -> tmps_unmapped G run -> dop_bal G run o -> dop_live v run o ->
   npu (snd (fst (dexec c v run o))).
 Proof using Ha.
-  intros HI Hr Hok Htm Hbal Hlive. pose proof (va_s _ _ _ _ (VamDefragBal.vb_a c ms0 G _ HI)) as HU.
+  intros HI HV Hr Hok Htm Hbal Hlive. pose proof (va_s _ _ _ _ (VamDefragBal.vb_a c ms0 G _ HI)) as HU.
   destruct o as [flags pool mb ma| |ds|]; cbn [dexec].
   - assert (N : npu (snd (defrag_begin c v flags pool mb ma))).
     { unfold defrag_begin. destruct (_ || _); [apply npu_er|]. destruct (_ =? 3); [apply npu_er|].
@@ -490,7 +484,7 @@ Proof using Ha.
       destruct (negb _); [apply npu_er|apply npu_ok]. }
     destruct (defrag_begin c v flags pool mb ma) as (v1 & r). cbn [snd] in N. destruct N as (N1 & N2).
     destruct r as [rn|code| |]; try congruence; split; discriminate.
-  - destruct run as [rn|]; [|destruct Hlive]. destruct Hok as (Hidle & HG). cbn [dop_live] in Hlive.
+  - destruct run as [rn|]; [|destruct Hlive]. pose proof Hok as Hidle. pose proof HV as HG. cbn [dop_live] in Hlive.
     pose proof (defrag_pass_np c Hc Hmax Hlarge ms0 v rn HU (VamDefragBal.vb_mmx c ms0 G _ HI) Hr Hidle HG Hlive) as N.
     destruct (defrag_pass c v rn) as ((v1 & rn') & r). cbn [snd] in N. destruct N as (N1 & N2).
     destruct r as [mvs|code| |]; try congruence; split; discriminate.
@@ -505,11 +499,11 @@ Qed.
 
 (* one defragmentation call in the domain, any fault oracle *)
 Theorem dstep_np G v run o f :
-  VamAcctStep.VamInvA c v [] [] -> MapInv v [] -> BInv v G [] -> drun_ok v run -> dop_ok v run o -> tmps_unmapped G run -> dop_bal G run o ->
+  VamAcctStep.VamInvA c v [] [] -> MapInv v [] -> BInv v G [] -> VamGran.GV v -> drun_ok v run -> dop_ok v run o -> tmps_unmapped G run -> dop_bal G run o ->
   dop_live v run o ->
   let '(v', run', r, calls, dr) := dstep c v run o f in r <> RPanic /\ r <> RStuck.
 Proof using Ha.
-  intros HI HM HB Hr Hok Htm Hbal Hlive. unfold dstep.
+  intros HI HM HB HV Hr Hok Htm Hbal Hlive. unfold dstep.
   set (ms0 := m_mems (v_m v)).
   set (v0 := set_m v (clear_calls (set_fault (v_m v) f 0))).
   assert (Hms : forall m ff n, mach_sameA c m (clear_calls (set_fault m ff n))).
@@ -522,7 +516,7 @@ Proof using Ha.
   assert (Hok0 : dop_ok v0 run o) by (destruct o; cbn in *; auto).
   assert (Hlive0 : dop_live v0 run o).
   { destruct o; exact Hlive. }
-  pose proof (dexec_np ms0 G v0 run o I0 Hr0 Hok0 Htm Hbal Hlive0) as E.
+  pose proof (dexec_np ms0 G v0 run o I0 (VamGran.GR_set_m v _ HV) Hr0 Hok0 Htm Hbal Hlive0) as E.
   destruct (dexec c v0 run o) as (((v1 & run1) & r) & dr) eqn:Ed. cbn [fst snd] in E. destruct E as (E1 & E2).
   split; destruct r as [[]|code| |]; cbn; congruence.
 Qed.
@@ -535,7 +529,7 @@ Proof using Ha.
   intros R Hok Hbal Hlive Hs.
   pose proof (reachDB_reachDA c Ha _ _ _ R) as RA. destruct (reachDA_inv c Ha v run RA) as (HI & Hr).
   destruct (reachDB_inv c Ha v run G R) as (HB & Htm).
-  pose proof (dstep_np G v run o f HI (reachDA_map c Ha v run RA) HB Hr Hok Htm Hbal Hlive) as P. rewrite Hs in P. exact P.
+  pose proof (dstep_np G v run o f HI (reachDA_map c Ha v run RA) HB (reachD_gv c Hc v run (reachDA_reachD c Ha v run RA)) Hr Hok Htm Hbal Hlive) as P. rewrite Hs in P. exact P.
 Qed.
 
 (* the earlier, weaker form (from when a vkMapMemory failing inside BeginDefragPass left the model); kept under its name *)
